@@ -520,8 +520,25 @@ impl World {
                     }
                     None => false,
                 };
+            // every node that may campaign needs, by its own (older) configuration, the vote of a node that is no longer
+            // a voter in its own configuration, cannot campaign itself, and refuses because its log is longer
+            let blocked_by_nonvoter = leader_term == 0 && {
+                let running: Vec<&crate::world::Node> = self.nodes.values().filter(|x| x.running()).collect();
+                let cands: Vec<&&crate::world::Node> = running.iter().filter(|x| x.obs.promotable).collect();
+                !cands.is_empty()
+                    && cands.iter().all(|c| {
+                        let key = |x: &crate::world::Node| (x.obs.last_term, x.obs.last_index);
+                        let rc = crate::refmodel::RefConf::from_shape(&c.obs.conf);
+                        let granters: std::collections::BTreeSet<u64> = running.iter().filter(|x| key(x) <= key(c)).map(|x| x.id).collect();
+                        let with_blockers: std::collections::BTreeSet<u64> =
+                            running.iter().filter(|x| key(x) <= key(c) || !x.obs.promotable).map(|x| x.id).collect();
+                        !rc.is_quorum(&granters) && rc.is_quorum(&with_blockers)
+                    })
+            };
             let sig = if stranded {
                 "stall:stale_config_leader_stranded_new_voters"
+            } else if blocked_by_nonvoter {
+                "stall:nonvoter_with_longer_log_blocks_the_only_candidates"
             } else if outrun {
                 "stall:stale_config_voter_outruns_terms"
             } else if deaf_nonvoter {
